@@ -16,3 +16,68 @@ class validate_score_vector:
 
     def hint_raise_ValueError(score_vector, i):
         return vec_ok_prefix(score_vector, i + 1, len(score_vector))
+
+
+@contract("utils.py", "tiebreak_set", props=("C10",))
+class tiebreak_set:
+    """used as a callee contract by elect_cands_from_set_ranking; its own body is verified separately (C10)"""
+    params = dict(r_set=CSet, profile=Opt(Profile), tiebreak=Str)
+    returns = Seq(CSet)
+    bounded_only = True
+
+    def raises_ValueError(r_set, profile, tiebreak):
+        return tiebreak != "random" and (profile is None or (tiebreak != "first_place" and tiebreak != "borda"))
+
+    def ensures(r_set, profile, tiebreak, result):
+        return lin(result, r_set)
+
+
+@contract("utils.py", "elect_cands_from_set_ranking", props=("C01", "C04", "C05", "C10", "C20"))
+class elect_cands_from_set_ranking:
+    """elect the top m of a set-ranking; s = index of the position at which the m-th seat falls"""
+    params = dict(ranking=Seq(CSet), m=Int, profile=Opt(Profile), tiebreak=Opt(Str))
+    returns = Tup(Seq(CSet), Seq(CSet), Opt(Tup(CSet, Seq(CSet))))
+    locals = dict(elected=Seq(CSet, "list"))
+
+    def raises_ValueError(ranking, m, profile, tiebreak):
+        return (m < 1 or m > count(ranking, len(ranking))
+                or (count(ranking, first_reach(ranking, m, 0) + 1) > m
+                    and (tiebreak is None
+                         or (tiebreak != "random" and (profile is None or (tiebreak != "first_place" and tiebreak != "borda"))))))
+
+    def ensures(ranking, m, profile, tiebreak, result):
+        return (count(result[0], len(result[0])) == m
+                and implies(count(ranking, first_reach(ranking, m, 0) + 1) == m,
+                            result[2] is None
+                            and result[0] == ranking[:first_reach(ranking, m, 0) + 1]
+                            and result[1] == ranking[first_reach(ranking, m, 0) + 1:])
+                and implies(count(ranking, first_reach(ranking, m, 0) + 1) != m,
+                            result[2] is not None
+                            and result[2][0] == ranking[first_reach(ranking, m, 0)]
+                            and lin(result[2][1], ranking[first_reach(ranking, m, 0)])
+                            and result[0] == ranking[:first_reach(ranking, m, 0)]
+                            + result[2][1][:m - count(ranking, first_reach(ranking, m, 0))]
+                            and result[1] == result[2][1][m - count(ranking, first_reach(ranking, m, 0)):]
+                            + ranking[first_reach(ranking, m, 0) + 1:]))
+
+    def invariant_0(ranking, m, i, num_elected, elected):
+        return (0 <= i and i <= len(ranking) and num_elected == count(ranking, i)
+                and elected == list(ranking[:i])
+                and ((num_elected < m and first_reach(ranking, m, 0) == first_reach(ranking, m, i))
+                     or (num_elected == m and i >= 1 and first_reach(ranking, m, 0) == i - 1
+                         and count(ranking, i) == m)))
+
+    def decreases_0(ranking, i):
+        return len(ranking) - i
+
+    def hint_inv_0(ranking, i):
+        return take_snoc(ranking, i - 1)
+
+    def hint_return_a(ranking, i):
+        return count_take(ranking, i, i)
+
+    def hint_return_b(ranking, i, m, tiebroken_ranking, num_elected):
+        return (count_take(ranking, i, i)
+                and count_append(ranking[:i], tiebroken_ranking[:m - num_elected], m - num_elected)
+                and count_take(tiebroken_ranking, m - num_elected, m - num_elected)
+                and count_singletons(tiebroken_ranking, m - num_elected))
